@@ -29,9 +29,12 @@ def _step_call(it, fn, formula, offset, token, in_string, in_path, in_range, in_
     from xlcalculator import tokenizer
     f = tokenizer.ExcelParser.getTokens
     node = func_ast(f)
-    loops = [n for n in node.body if isinstance(n, pyast.While)]
-    main = loops[1]
-    assert pyast.unparse(main.test).replace(' ', '') == 'notEOF()', pyast.unparse(main.test)
+    # the scan loop: the one top-level `while not EOF():` (anchored by its guard, not by its position)
+    loops = [n for n in node.body if isinstance(n, pyast.While) and pyast.unparse(n.test).replace(' ', '') == 'notEOF()']
+    if len(loops) != 1:
+        from pyvc.sym import Unsupported
+        raise Unsupported('the scan loop of getTokens is no longer a single `while not EOF()` loop: the step contracts do not apply')
+    main = loops[0]
     tokens, stack = tokenizer.f_tokens(), tokenizer.f_tokenStack()
     stack.push(tokenizer.f_token('F', 'function', 'start'))
     stack.push(tokenizer.f_token('', 'subexpression', 'start'))
